@@ -9,6 +9,9 @@ Four families of cases (first element of the case descriptor):
        every request); the draw of each (particle, batch row) is placed in every CDF interval (midpoint), on
        every interval boundary, at 0.0 and at nextafter(1, 0), with a bounded number of deviations from the
        default answer "first non-empty interval".
+  "H"  short histories: 2-3 sample calls (different / equal sampled subsets, incl. subsets whose flattened layouts
+       have equal shape) on ONE Tensor object; each call is checked like a "T" execution, i.e. the outcome of a
+       call must not depend on the calls made before it.
   "G"  Gaussian._sample: one case = one group of executions (noise 0, e_a at every (particle, batch) position and
        a generic noise vector), eager randn path and reparametrised path (noise passed as a Reals[...] sample input).
   "M"  Contraction._sample on Tensor + Gaussian mixtures and Integrate under the MonteCarlo interpretation.
@@ -31,7 +34,8 @@ ID = "C14"
 LEVEL_RULE = (
     "D: one case = (operation, variable kind, point kind, log_density kind, argument), full product of the announced "
     "grammar; T: one case = ONE execution = (tensor signature, sampled subset, position of the -inf cell or none, "
-    "sample-input sizes, vector of deviating draws); G/M: one case = a group of executions sharing a Gaussian "
+    "sample-input sizes, vector of deviating draws); H: one case = a sequence of 2-3 such executions on one Tensor object "
+    "(non-trivial when the sampled subsets differ); G/M: one case = a group of executions sharing a Gaussian "
     "(all prescribed noises). Non-trivial = the library returned a value that was read/grounded and compared with "
     "the reference at every point (T: additionally >= 2 cells in the sampled block or a -inf cell present); "
     "distinct = distinct descriptor"
@@ -354,9 +358,13 @@ def t_cases(tier):
 _T_CACHE = {}
 
 
-def t_setup(sizes, mask, fillpos, ss, seed):
+def t_setup(sizes, mask, fillpos, ss, seed, share=None, fresh=False):
+    """Reference tables of one (signature, sampled subset, fill, sample sizes) and the Tensor under test.
+
+    share: an earlier setup whose Tensor OBJECT (and data) is reused (history family); fresh: bypass the cache."""
     key = (tuple(sizes), mask, fillpos, tuple(ss), seed)
-    if key in _T_CACHE:
+    cached = share is None and not fresh
+    if cached and key in _T_CACHE:
         return _T_CACHE[key]
     if len(_T_CACHE) > 64:
         _T_CACHE.clear()
@@ -364,10 +372,13 @@ def t_setup(sizes, mask, fillpos, ss, seed):
     from funsor.tensor import Tensor
 
     sizes = tuple(sizes)
-    data = generic_fill(7, sizes, seed) - 1.0
-    if fillpos >= 0:
-        data = data.copy()
-        data.flat[fillpos] = NEG_INF
+    if share is not None:
+        data = share["data"]
+    else:
+        data = generic_fill(7, sizes, seed) - 1.0
+        if fillpos >= 0:
+            data = data.copy()
+            data.flat[fillpos] = NEG_INF
     batch, event, B, n = t_layout(sizes, mask)
     # reference table: rows = batch elements (row-major over batch inputs in .inputs order),
     # columns = flattened joint index over the sampled inputs in .inputs order (last fastest)
@@ -385,14 +396,18 @@ def t_setup(sizes, mask, fillpos, ss, seed):
         mass.append(ref_logsumexp(row))
         empty.append([bool(v == NEG_INF) for v in row])
         cdf.append(None if row.max() == NEG_INF else cs[r])
-    x = Tensor(data, OrderedDict((T_NAMES[i], Bint[sizes[i]]) for i in range(len(sizes))))
+    if share is not None:
+        x = share["x"]
+    else:
+        x = Tensor(data, OrderedDict((T_NAMES[i], Bint[sizes[i]]) for i in range(len(sizes))))
     st = {
         "x": x, "data": data, "batch": batch, "event": event, "B": B, "n": n, "rows": rows, "cdf": cdf,
         "mass": mass, "empty": empty, "sizes": sizes, "ss": tuple(ss),
         "sample_inputs": OrderedDict((S_NAMES[i], Bint[s]) for i, s in enumerate(ss)),
         "sampled": frozenset(T_NAMES[i] for i in event),
     }
-    _T_CACHE[key] = st
+    if cached:
+        _T_CACHE[key] = st
     return st
 
 
@@ -434,8 +449,14 @@ def t_snippet(st, R, sampled):
         "x = Tensor(data, OrderedDict([%s]))"
         % ", ".join("(%r, Bint[%d])" % (T_NAMES[i], s) for i, s in enumerate(st["sizes"]))
     )
-    lines.append("R = %s.reshape(%r)" % (lit(np.asarray(R).reshape(-1)), shape))
     lines.append("np.random.rand = lambda *shape: (R if shape else float(R))  # prescribed uniforms")
+    for hs, hss, hR in st.get("history", ()):  # earlier sample calls on the SAME Tensor object
+        lines.append("R = %s.reshape(%r)" % (lit(np.asarray(hR).reshape(-1)), tuple(np.shape(hR))))
+        lines.append(
+            "x.sample(frozenset(%r), OrderedDict([%s]))  # earlier call"
+            % (sorted(hs), ", ".join("(%r, Bint[%d])" % (S_NAMES[i], t) for i, t in enumerate(hss)))
+        )
+    lines.append("R = %s.reshape(%r)" % (lit(np.asarray(R).reshape(-1)), shape))
     lines.append(
         "y = x.sample(frozenset(%r), OrderedDict([%s]))"
         % (sorted(sampled), ", ".join("(%r, Bint[%d])" % (S_NAMES[i], s) for i, s in enumerate(st["ss"])))
@@ -516,6 +537,105 @@ def check_TP(case, seed):
     )
 
 
+# -- short histories on ONE Tensor object ------------------------------------------------------------------
+#
+# The outcome of a sample call must not depend on the sample calls made before it on the same object (same
+# prescribed draws => same result; points in the support; mass preserved).  One case = a sequence of 2-3 calls
+# (sampled subset, sample sizes, deviations) on one freshly built Tensor; every call is checked against the
+# single-call reference exactly like a T execution (t_exec runs each call twice).
+
+H_SS_PAIRS = [([], []), ([2], []), ([], [2])]
+
+
+def h_sizes(tier):
+    quick = [[2, 2], [3, 3], [2, 3], [2, 2, 2]]
+    return quick if tier == "quick" else quick + [[3, 2], [4, 4], [2, 3, 2], [3, 3, 3]]
+
+
+def h_last_devs(sizes, mask, fillpos, ss):
+    """0 deviations and every single deviation of the LAST call (draws of the -inf row only for -inf fills)."""
+    batch, event, B, n = t_layout(sizes, mask)
+    S = int(np.prod(ss)) if ss else 1
+    erow, ecol = t_cell_of(sizes, mask, fillpos) if fillpos >= 0 else (-1, -1)
+    alts = [t_alts(n, {ecol} if r == erow else set()) for r in range(B)]
+    out = [[]]
+    for d in range(S * B):
+        if fillpos >= 0 and d % B != erow:
+            continue
+        for alt in alts[d % B][1:]:
+            out.append([[d] + alt])
+    return out
+
+
+def h_cases(tier):
+    out = []
+    for sizes in h_sizes(tier):
+        k = len(sizes)
+        cells = int(np.prod(sizes))
+        masks = list(range(1, 2 ** k))
+        fills = [-1] + list(range(cells))
+        if cells > 9 and tier == "quick":
+            fills = [-1, 0, cells - 1]
+        for fillpos in fills:
+            # ordered pairs (incl. the same subset twice)
+            for m1 in masks:
+                for m2 in masks:
+                    for ss1, ss2 in H_SS_PAIRS:
+                        if fillpos >= 0 and cells > 8 and (ss1 or ss2) and tier == "quick":
+                            continue
+                        for devs in h_last_devs(sizes, m2, fillpos, ss2):
+                            out.append(["H", sizes, fillpos, [[m1, ss1, []], [m2, ss2, devs]]])
+            # triples: all orders of three distinct subsets (single variables / all masks when k == 2)
+            trip_sets = [masks] if k == 2 else [[1, 2, 4], [3, 5, 6], [1, 6, 7]]
+            for ms in trip_sets:
+                for perm in itertools.permutations(ms):
+                    for last in ([], None):
+                        devs_list = [[]] if last == [] else h_last_devs(sizes, perm[2], fillpos, [])[1:3]
+                        for devs in devs_list:
+                            out.append(["H", sizes, fillpos, [[perm[0], [2], []], [perm[1], [], []], [perm[2], [], devs]]])
+    return out
+
+
+def check_H(case, seed):
+    _, sizes, fillpos, calls = case
+    key = repr(case)
+    first = None
+    hist = []
+    transitions, draws = 0, 0
+    classes = []
+    for j, (mask, ss, devs) in enumerate(calls):
+        st = t_setup(sizes, mask, fillpos, ss, seed, share=first, fresh=True)
+        if first is None:
+            first = st
+        assert st["x"] is first["x"]
+        st["history"] = list(hist)
+        sub = ["T", sizes, mask, fillpos, ss, devs, 1 if j == len(calls) - 1 else 0]
+        out = t_exec(key, sub, st, devs, sub[6])
+        if out["status"] == "violation":
+            v = out["violation"]
+            v["case"] = case
+            v["features"] = dict(v["features"], history=bool(j > 0), call_index=j,
+                                 same_subset_before=any(c[0] == mask for c in calls[:j]))
+            v["message"] = "call %d of the history %s on ONE Tensor object: %s" % (
+                j, [[c[0], c[1]] for c in calls], v["message"])
+            return out
+        if out["status"] != "ok":
+            return out
+        transitions += out["transitions"]
+        draws += out["counters"].get("T_draws_checked", 0)
+        classes.append(out["outcome"].split(":")[2])
+        hist.append((st["sampled"], st["ss"], st["last_R"]))
+        hist.append((st["sampled"], st["ss"], st["last_R"]))  # t_exec runs every call twice
+    masks = [c[0] for c in calls]
+    shapes = [t_layout(sizes, m)[2:] for m in masks]
+    equal_shape = any(shapes[a] == shapes[b] and masks[a] != masks[b]
+                      for a in range(len(masks)) for b in range(a + 1, len(masks)))
+    cls = "H:%d-calls:%s:%s" % (len(calls), "equal-shape-layouts" if equal_shape else "distinct-shapes",
+                                 "inf" if fillpos >= 0 else "gen")
+    return core.ok(key, len(set(masks)) > 1, cls, transitions,
+                   {"H_calls": len(calls), "T_executions": 2 * len(calls), "T_draws_checked": draws})
+
+
 def check_T(case, seed):
     _, sizes, mask, fillpos, ss, devs, fr = case
     st = t_setup(sizes, mask, fillpos, ss, seed)
@@ -545,6 +665,7 @@ def t_exec(key, case, st, devs, fr):
         alts_used.append(alt)
         flat[d] = t_draw_value(alt, st["cdf"][row], n)
     R = flat.reshape(shape)
+    st["last_R"] = R
     snippet = lambda: t_snippet(st, R, st["sampled"])  # noqa: E731
 
     def viol(site, msg, alt="default", **extra):
@@ -2030,6 +2151,15 @@ def bounds(tier):
             "funsor_level_reduce": "0-deviation execution and every deviation of the first deviating draw"
             + ("" if quick else "; every 0- and 1-deviation execution of signatures with sizes <= 3"),
         },
+        "tensor_sampling_histories": {
+            "what": "2-3 sample calls on ONE Tensor object; every call checked against the single-call reference",
+            "sizes": h_sizes(tier),
+            "fills": "generic; -inf in every single position" + (" (for > 9 cells: first and last position)" if quick else ""),
+            "pairs": "every ordered pair of sampled subsets incl. the same subset twice; sample sizes of the two calls "
+                     "in %s; last call: 0 deviations and every single deviation" % (H_SS_PAIRS,),
+            "triples": "every order of three distinct subsets (all three when 2 inputs; {a,b,c}, {ab,ac,bc}, {a,bc,abc} "
+                       "when 3 inputs), first call with p:2, last call 0-2 deviations",
+        },
         "gaussian_sampling": {
             "real_input_shapes": [[[]], [[2]], [[], []], [[], [2]], [[2], []], [[2], [2]]],
             "batch": "none or b:2 at every position" + ("" if quick else "; b:2 first and c:3 last"),
@@ -2047,7 +2177,7 @@ def bounds(tier):
 def cases(tier):
     # D, M, T simplest-first; the (slow) Gaussian groups are spread evenly through the list so that no worker
     # chunk consists of slow cases only
-    fast = d_cases(tier) + m_cases(tier) + t_cases(tier)
+    fast = d_cases(tier) + m_cases(tier) + h_cases(tier) + t_cases(tier)
     slow = g_cases(tier)
     step = max(1, len(fast) // (len(slow) + 1))
     out, k = [], 0
@@ -2060,7 +2190,7 @@ def cases(tier):
     return out
 
 
-CHECKS = {"D": check_D, "T": check_T, "TP": check_TP, "G": check_G, "M": check_M}
+CHECKS = {"D": check_D, "T": check_T, "TP": check_TP, "G": check_G, "M": check_M, "H": check_H}
 
 
 def check(case, seed):
@@ -2081,11 +2211,12 @@ def finalize(report, tier, seed):
     fam = {}
     for k, n in report.outcomes.items():
         head = k.split(":")[0]
-        if head in ("D", "T", "TP", "G", "M"):
+        if head in ("D", "T", "TP", "G", "M", "H"):
             fam[head] = fam.get(head, 0) + n
     return {"ok_cases_by_family": fam, "family_legend": {
         "D": "Delta semantics", "T": "Tensor._sample single executions", "TP": "Tensor._sample pairs of deviations "
-        "(one case = all alternative pairs of two draws)", "G": "Gaussian._sample groups", "M": "mixture / MonteCarlo"}}
+        "(one case = all alternative pairs of two draws)", "G": "Gaussian._sample groups", "M": "mixture / MonteCarlo",
+        "H": "histories of 2-3 sample calls on one Tensor object"}}
 
 
 def _listify(x):
